@@ -25,7 +25,56 @@ var c13Kinds = func() []string {
 	return k
 }()
 
+// overlapping element patterns that all match the host elements my-x / x-a-y / tag1, with
+// attribute and style rules for the SAME attribute / property and different accepted values:
+// the shape in which an order-dependent merge shows
+func genC13Overlap(t *rapid.T) *Case {
+	spec := &Spec{Base: "New"}
+	res := []int{0, 1, 2, 4, 7} // ^my-  -y$  ^x-  .*  tag
+	hostProps := []string{"color", "text-align", "width"}
+	n := rapid.IntRange(2, 6).Draw(t, "nov")
+	for i := 0; i < n; i++ {
+		re := rapid.SampledFrom(res).Draw(t, "ovre")
+		if rapid.Bool().Draw(t, "ovstyle") {
+			op := Op{Kind: "AllowStyles", Attrs: []string{rapid.SampledFrom(hostProps).Draw(t, "ovprop")}, Scope: "elre", ElRe: re, ValRe: -1}
+			switch rapid.IntRange(0, 2).Draw(t, "ovmatch") {
+			case 0:
+				op.Match, op.Enum = "enum", rapid.IntRange(0, len(styleEnumPool)-1).Draw(t, "ovenum")
+			case 1:
+				op.Match, op.ValRe = "re", rapid.IntRange(0, len(styleRePool)-1).Draw(t, "ovsre")
+			default:
+				op.Match, op.Fn = "fn", rapid.IntRange(1, len(styleFns)-1).Draw(t, "ovfn")
+			}
+			spec.Ops = append(spec.Ops, op)
+		} else {
+			op := Op{Kind: "AllowAttrs", Attrs: []string{rapid.SampledFrom([]string{"title", "class", "id", "style"}).Draw(t, "ovattr")}, Scope: "elre", ElRe: re, ValRe: -1}
+			if rapid.Bool().Draw(t, "ovhasre") {
+				op.ValRe = rapid.SampledFrom([]int{0, 3, 4, 5}).Draw(t, "ovvre")
+			}
+			spec.Ops = append(spec.Ops, op)
+		}
+	}
+	spec.Ops = append(spec.Ops, Op{Kind: "AllowAttrs", Attrs: []string{"id"}, Scope: "elre", ElRe: 4, ValRe: -1})
+	hosts := []string{"my-x", "x-a-y", "my-y", "tag1", "x-q"}
+	vals := []string{"red", "blue", "left", "right", "center", "10px", "1px", "#fff", "re d", "1", "abc", "42", "a b"}
+	c := &Case{Spec: spec, Kind: "overlap"}
+	k := rapid.IntRange(8, 12).Draw(t, "ninputs")
+	for i := 0; i < k; i++ {
+		el := rapid.SampledFrom(hosts).Draw(t, "ovhost")
+		var ds []string
+		for j := rapid.IntRange(1, 3).Draw(t, "ovnd"); j > 0; j-- {
+			ds = append(ds, rapid.SampledFrom(hostProps).Draw(t, "ovp")+": "+rapid.SampledFrom(vals).Draw(t, "ovv"))
+		}
+		in := "<" + el + ` id="i" style="` + strings.Join(ds, "; ") + `" title="` + rapid.SampledFrom(vals).Draw(t, "ovt") + `" class="` + rapid.SampledFrom(vals).Draw(t, "ovc") + `">t</` + el + ">"
+		c.Inputs = append(c.Inputs, BStr(in))
+	}
+	return c
+}
+
 func genC13(t *rapid.T) *Case {
+	if rapid.IntRange(0, 2).Draw(t, "overlapCase") == 0 {
+		return genC13Overlap(t)
+	}
 	spec := genSpec(t, &SpecOpts{Kinds: c13Kinds, MinOps: 3, MaxOps: 14})
 	m := BuildModel(spec)
 	n := rapid.IntRange(8, 16).Draw(t, "ninputs")
